@@ -418,6 +418,34 @@ add("Par_US", P.ParallelUtilityEstimationWrapper,
     lambda s, ml=NAN: P.ParallelUtilityEstimationWrapper(P.UncertaintySampling(method="margin_sampling", missing_label=ml, random_state=s),
                                                          n_jobs=-1, parallel_dict={"backend": "threading"}, missing_label=ml, random_state=s),
     lambda c: dict(clf=_ctx_clf(c)), model_arg="clf", lazy=True)
+# dictionary parameters that carry a RandomState INSTANCE (caller-owned, like the dictionary itself): a query must neither
+# advance it (C05: get_params unchanged) nor answer a repeated call differently (C06)
+def _rs(k):
+    return np.random.RandomState(k)
+
+
+add("TypiClust_dict_rs", P.TypiClust,
+    lambda s, ml=NAN: P.TypiClust(missing_label=ml, random_state=s, cluster_algo_dict={"random_state": _rs(3), "n_init": 2}),
+    kind="both", feat=False, lazy=True)
+add("Clue_dict_rs", P.Clue,
+    lambda s, ml=NAN: P.Clue(missing_label=ml, random_state=s, cluster_algo_dict={"random_state": _rs(4), "n_init": 2}),
+    lambda c: dict(clf=_ctx_clf(c)), model_arg="clf", lazy=True, feat=False)
+add("DropQuery_dict_rs", P.DropQuery,
+    lambda s, ml=NAN: P.DropQuery(missing_label=ml, random_state=s, cluster_algo_dict={"random_state": _rs(5), "n_init": 2}),
+    lambda c: dict(clf=_ctx_clf(c)), model_arg="clf", lazy=True, feat=False)
+add("ProbCover_dict_rs", P.ProbCover,
+    lambda s, ml=NAN: P.ProbCover(missing_label=ml, random_state=s, cluster_algo_dict={"random_state": _rs(6), "n_init": 2}),
+    kind="both", feat=False, lazy=True)
+add("CostEmbeddingAL_mds_rs", P.CostEmbeddingAL,
+    lambda s, ml=NAN, classes=(0, 1, 2): P.CostEmbeddingAL(classes=list(classes), mds_params={"random_state": _rs(7), "n_init": 2},
+                                                           missing_label=ml, random_state=s),
+    arbitrary_index_ok=True, needs_classes=True, nmax=14, slow=4, lazy=True)
+add("QBC_KL_sample_rs", P.QueryByCommittee,
+    lambda s, ml=NAN: P.QueryByCommittee(sample_predictions_method_name="sample_proba",
+                                         sample_predictions_dict={"n_samples": 4, "random_state": _rs(8)}, missing_label=ml, random_state=s),
+    lambda c: dict(ensemble=_pwc_prior(c)), arbitrary_index_ok=True, model_arg="ensemble")
+
+
 def _mixture_domain(case):
     """A Gaussian mixture cannot be estimated from a handful of duplicated 48-dimensional binary rows (scikit-learn:
     'ill-defined empirical covariance'): requirement of the third-party model."""
